@@ -3,6 +3,7 @@ package html
 import (
 	"sort"
 	"strings"
+	"sync"
 
 	"github.com/elliotchance/gedcom/v39"
 	"github.com/elliotchance/gedcom/v39/html/core"
@@ -47,11 +48,21 @@ func NewPublisher(doc *gedcom.Document, options *PublishShowOptions) *Publisher 
 
 func (publisher *Publisher) Publish(fileWriter core.FileWriter, parallel int) (err error) {
 	files := publisher.Files(parallel)
+
+	// Several workers can fail at the same time (when the disk is full every
+	// write fails). The first error is returned.
+	var errMutex sync.Mutex
+
 	util.WorkerPool(parallel, func(_ int) {
 		for file := range files {
 			fileErr := fileWriter.WriteFile(file)
 			if fileErr != nil {
-				err = fileErr
+				errMutex.Lock()
+				if err == nil {
+					err = fileErr
+				}
+				errMutex.Unlock()
+
 				break
 			}
 		}
